@@ -684,7 +684,7 @@ __CPROVER_assigns(data, data_n, g_ob, g_od, g_nout)
 """
     subs = LINE_SUBS
     nq = [(5, "int", False), (5, "int", True)]
-    nt = [(6, "int", False), (6, "int", True), (7, "int", True), (5, "double", False), (5, "double", True)]
+    nt = [(6, "int", False), (6, "int", True), (7, "int", False), (7, "int", True), (8, "int", True), (5, "double", False), (5, "double", True)]
     for n, ty, gr in nq + (nt if tier == "thorough" else []):
         fn = Fn(L, r"void compute_persistence_of_function_on_line\(FiltrationRange const& input, OutputFunctor&& out, Compare&& lt = \{\}\)",
                 "line_persistence", con, sig_subs=[(r"\(FiltrationRange const& input, OutputFunctor&& out, Compare&& lt = \{\}\)", "(void)")],
